@@ -1,15 +1,22 @@
-// C19 real-thread harness: PANOC runs on a deliberately slow problem while *another std::thread*
-// calls solver.stop().  One op line -> one output line:
-//   threadstop <problem / start / parameter keys as in solvers_panoc.cpp> stopeval=<k> delay_us=<d> spin=<s>
+// C19 real-thread harness: PANOC / ZeroFPR / PANTR / FISTA runs on a deliberately slow problem while
+// *another std::thread* calls solver.stop().  One op line -> one output line:
+//   threadstop solver=panoc|zerofpr|pantr|fista <problem / start / parameter keys as in solvers_*.cpp>
+//              stopeval=<k> delay_us=<d> spin=<s>
 //     stopeval=k : the stopper thread waits until the solver thread has begun its k-th problem
 //                  evaluation, then (after delay_us microseconds) calls stop()
-//   -> "S …" / "O …" / final "CB …" sections in the format of solver_run.hpp, plus
+//   -> "S …" / "O …" / final "CB …" sections in the (PANOC) format of solver_run.hpp — fields a solver
+//      does not have are printed as 0 —, plus
 //      "A <evals begun when stop() returned> <evals in total> <1 if stop() was called before the solve ended>"
 // Compiled plainly (quick tier) and with -fsanitize=thread (thorough tier): any ThreadSanitizer
 // report on stderr is a violation (data race on the stop flag or anywhere in the solver).
+#include "solver_pantr.hpp"
 #include "solver_run.hpp"
+#include <alpaqa/implementation/inner/fista.tpp>
 #include <alpaqa/implementation/inner/panoc.tpp>
+#include <alpaqa/implementation/inner/pantr.tpp>
+#include <alpaqa/implementation/inner/zerofpr.tpp>
 #include <alpaqa/implementation/inner/directions/panoc/structured-lbfgs.tpp>
+#include <alpaqa/inner/fista.hpp>
 #include <atomic>
 #include <iostream>
 #include <thread>
@@ -69,28 +76,44 @@ struct SlowProblem {
     }
 };
 
-template <class Dir>
-std::string run_threadstop(const KV &kv, Dir &&dir) {
-    using Solver = alpaqa::PANOCSolver<std::remove_cvref_t<Dir>>;
+// final callback / statistics in the PANOC layout whatever the solver
+template <class CB>
+std::string fmt_cb_any(const CB &i) {
+    vec none(0);
+    bool have_gh = i.grad_ψ_hat.size() > 0;
+    real_t tau   = 0;
+    if constexpr (requires { i.τ; })
+        tau = i.τ;
+    return " ; CB " + std::to_string(i.k) + ' ' + status_name(i.status) + ' ' + vp::fmtv(i.x) + ' ' +
+           vp::fmtv(i.p) + ' ' + vp::f2h(i.norm_sq_p) + ' ' + vp::fmtv(i.x̂) + ' ' + vp::fmtv(i.ŷ) + ' ' +
+           vp::f2h(i.φγ) + ' ' + vp::f2h(i.ψ) + ' ' + vp::fmtv(i.grad_ψ) + ' ' + vp::f2h(i.ψ_hat) + ' ' +
+           (have_gh ? "1 " + vp::fmtv(i.grad_ψ_hat) : std::string("0 0")) + " 0 " + vp::f2h(i.L) + ' ' +
+           vp::f2h(i.γ) + ' ' + vp::f2h(tau) + ' ' + vp::f2h(i.ε);
+}
+
+template <class St>
+std::string fmt_stats_any(const St &s) {
+    real_t fbe = 0;
+    if constexpr (requires { s.final_φγ; })
+        fbe = s.final_φγ;
+    return "S " + status_name(s.status) + ' ' + std::to_string(s.iterations) + ' ' + vp::f2h(s.ε) + " 0 0 " +
+           std::to_string(s.stepsize_backtracks) + " 0 0 0 0 " + vp::f2h(0) + ' ' + vp::f2h(s.final_γ) + ' ' +
+           vp::f2h(s.final_ψ) + ' ' + vp::f2h(s.final_h) + ' ' + vp::f2h(fbe);
+}
+
+template <class Solver>
+std::string run_threadstop(const KV &kv, Solver &&solver) {
+    using SolverT = std::remove_cvref_t<Solver>;
     PolyProblem poly{kv};
     std::atomic<long> count{0};
     SlowProblem sp{&poly, &count, kv.nat("spin", 2000)};
     alpaqa::TypeErasedProblem<config_t> te{&sp};
-    typename Solver::Params params;
-    set_common_params(params, kv);
-    params.min_linesearch_coefficient           = kv.flt("minls", 1. / 256);
-    params.linesearch_coefficient_update_factor = kv.flt("lsupd", 0.5);
-    params.force_linesearch                     = kv.nat("force", 0) != 0;
-    params.linesearch_strictness_factor         = kv.flt("beta", 0.95);
-    params.linesearch_tolerance_factor          = kv.flt("lstol", 10 * 2.220446049250313e-16);
-    params.update_direction_in_candidate        = kv.nat("updcand", 0) != 0;
-    params.recompute_last_prox_step_after_stepsize_change = kv.nat("recomp", 0) != 0;
-    params.eager_gradient_eval                  = kv.nat("eager", 0) != 0;
-    Solver solver{params, std::forward<Dir>(dir)};
+    std::ostream nullos(nullptr);
+    solver.os = &nullos;
     std::string last_cb;
-    solver.set_progress_callback([&](const typename Solver::ProgressInfo &i) {
+    solver.set_progress_callback([&](const typename SolverT::ProgressInfo &i) {
         if (i.status != alpaqa::SolverStatus::Busy)
-            last_cb = fmt_cb_panoc(i, i.grad_ψ_hat.size() > 0, false);
+            last_cb = fmt_cb_any(i);
     });
     vec x = kv.vecv("x0"), y = kv.vecv("y0"), Σ = kv.vecv("Sig"), errz(poly.m);
     errz.setConstant(-12345.0);
@@ -119,12 +142,7 @@ std::string run_threadstop(const KV &kv, Dir &&dir) {
     try {
         auto s = solver(te, opts, x, y, Σ, errz);
         done.store(true, std::memory_order_seq_cst);
-        out = "S " + status_name(s.status) + ' ' + std::to_string(s.iterations) + ' ' + vp::f2h(s.ε) + ' ' +
-              std::to_string(s.linesearch_failures) + ' ' + std::to_string(s.linesearch_backtracks) + ' ' +
-              std::to_string(s.stepsize_backtracks) + ' ' + std::to_string(s.lbfgs_failures) + ' ' +
-              std::to_string(s.lbfgs_rejected) + ' ' + std::to_string(s.τ_1_accepted) + ' ' +
-              std::to_string(s.count_τ) + ' ' + vp::f2h(s.sum_τ) + ' ' + vp::f2h(s.final_γ) + ' ' +
-              vp::f2h(s.final_ψ) + ' ' + vp::f2h(s.final_h) + ' ' + vp::f2h(s.final_φγ);
+        out = fmt_stats_any(s);
     } catch (std::exception &e) {
         done.store(true, std::memory_order_seq_cst);
         out = std::string("S exception");
@@ -140,21 +158,62 @@ std::string run_threadstop(const KV &kv, Dir &&dir) {
     return out;
 }
 
+template <class Dir>
+std::string run_panoc_like(const KV &kv, Dir &&dir) {
+    using D = std::remove_cvref_t<Dir>;
+    if (kv.str("solver", "panoc") == "zerofpr") {
+        alpaqa::ZeroFPRParams<config_t> p;
+        set_common_params(p, kv);
+        p.min_linesearch_coefficient      = kv.flt("minls", 1. / 256);
+        p.force_linesearch                = kv.nat("force", 0) != 0;
+        p.linesearch_strictness_factor    = kv.flt("beta", 0.95);
+        p.linesearch_tolerance_factor     = kv.flt("lstol", 10 * 2.220446049250313e-16);
+        p.update_direction_in_candidate   = kv.nat("updcand", 0) != 0;
+        p.recompute_last_prox_step_after_stepsize_change = kv.nat("recomp", 0) != 0;
+        p.update_direction_from_prox_step = kv.nat("updprox", 0) != 0;
+        return run_threadstop(kv, alpaqa::ZeroFPRSolver<D>{p, std::forward<Dir>(dir)});
+    }
+    alpaqa::PANOCParams<config_t> params;
+    set_common_params(params, kv);
+    params.min_linesearch_coefficient           = kv.flt("minls", 1. / 256);
+    params.linesearch_coefficient_update_factor = kv.flt("lsupd", 0.5);
+    params.force_linesearch                     = kv.nat("force", 0) != 0;
+    params.linesearch_strictness_factor         = kv.flt("beta", 0.95);
+    params.linesearch_tolerance_factor          = kv.flt("lstol", 10 * 2.220446049250313e-16);
+    params.update_direction_in_candidate        = kv.nat("updcand", 0) != 0;
+    params.recompute_last_prox_step_after_stepsize_change = kv.nat("recomp", 0) != 0;
+    params.eager_gradient_eval                  = kv.nat("eager", 0) != 0;
+    return run_threadstop(kv, alpaqa::PANOCSolver<D>{params, std::forward<Dir>(dir)});
+}
+
 std::string threadstop(const KV &kv) {
-    std::string d = kv.str("dir", "lbfgs");
+    std::string d = kv.str("dir", "lbfgs"), solver = kv.str("solver", "panoc");
     unsigned mem  = (unsigned)kv.nat("mem", 5);
+    if (solver == "fista") {
+        alpaqa::FISTAParams<config_t> p;
+        set_common_params(p, kv);
+        p.disable_acceleration = kv.nat("noacc", 0) != 0;
+        return run_threadstop(kv, alpaqa::FISTASolver<config_t>{p});
+    }
+    if (solver == "pantr") {
+        // a trust-region direction that makes no problem calls of its own (deterministic, seeded)
+        alpaqa::PANTRParams<config_t> p;
+        set_pantr_params(p, kv);
+        return run_threadstop(kv, alpaqa::PANTRSolver<AdvTRDirection>{
+                                      p, AdvTRDirection{(uint64_t)kv.nat("advseed", 1), kv.nat("advinit", 0) != 0}});
+    }
     if (d == "noop") {
-        return run_threadstop(kv, alpaqa::NoopDirection<config_t>{});
+        return run_panoc_like(kv, alpaqa::NoopDirection<config_t>{});
     } else if (d == "anderson") {
         using D = alpaqa::AndersonDirection<config_t>;
         typename D::AcceleratorParams ap;
         ap.memory = mem;
-        return run_threadstop(kv, D{ap});
+        return run_panoc_like(kv, D{ap});
     } else {
         using D = alpaqa::LBFGSDirection<config_t>;
         typename D::AcceleratorParams ap;
         ap.memory = mem;
-        return run_threadstop(kv, D{ap});
+        return run_panoc_like(kv, D{ap});
     }
 }
 
